@@ -9,5 +9,5 @@ Extraction "model_scan.ml"
   ScanBase.bs_ones ScanBase.addr_list
   LiveList.ll_new LiveList.ll_run LiveList.ll_abs LiveList.ll_iter_stations
   Scan.sc_new Scan.sc_run Scan.sc_abs Scan.sc_parse
-  ScanOracle.cursor_walk ScanOracle.probed ScanOracle.evs_matchb ScanOracle.alt_walk ScanOracle.no_other
+  ScanOracle.cursor_walk ScanOracle.probed ScanOracle.evs_matchb ScanOracle.alt_walk ScanOracle.no_other ScanOracle.no_silent
   ScanOracle.converge_scan ScanOracle.resp_state_eqb ScanOracle.sc_pay_eqb ScanOracle.sweep_polls.
